@@ -954,4 +954,28 @@ theorem doolittleInPlaceCell_view (h : IPSetup n P) (hn : P.n = n) (m0 : Array K
 
 end inplaceRows
 
+/-! ### a computable check of `GoodPattern` (for concrete instances) -/
+
+def goodCheck (n : Nat) (p : Pattern) : Bool :=
+  (List.range n).all fun r => (List.range n).all fun c =>
+    p.zero? r c || (decide (p.rk r c < p.nnz) &&
+      (List.range n).all fun r' => (List.range n).all fun c' =>
+        p.zero? r' c' || p.rk r c != p.rk r' c' || (r == r' && c == c'))
+
+theorem goodCheck_sound (n : Nat) (p : Pattern) (h : goodCheck n p = true) : GoodPattern n p := by
+  simp only [goodCheck, List.all_eq_true, List.mem_range, Bool.or_eq_true, Bool.and_eq_true,
+    decide_eq_true_eq, bne_iff_ne, beq_iff_eq] at h
+  constructor
+  · intro r c hr hc hp
+    rcases h r hr c hc with h1 | h1
+    · rw [hp] at h1; cases h1
+    · exact h1.1
+  · intro r c r' c' hr hc hr' hc' hp hp' heq
+    rcases h r hr c hc with h1 | h1
+    · rw [hp] at h1; cases h1
+    · rcases h1.2 r' hr' c' hc' with (h2 | h2) | h2
+      · rw [hp'] at h2; cases h2
+      · exact absurd heq h2
+      · exact h2
+
 end Micm
